@@ -221,6 +221,10 @@ def run(ctx):
     # ---- C02.7 values containing colons: the line is split at the first colon only
     shared.header_split_rule(ctx, "C02.7")
 
+    # ---- C02.8 lines and heads longer than the read buffer: the line reader works byte-wise with loop-carried state
+    import rules_C13
+    rules_C13.line_reader_rules(ctx, facts, "C02.8")
+
     # ---- C02.6 peer address
     pa = facts.fn("connection::Connection::peer_addr")
     ctx.touch(pa)
